@@ -222,6 +222,12 @@ func init() {
 						}
 						ops = append(ops, &c12op{kind: kind, addr: addr, payload: mkPayload(n, byte(i))})
 					}
+					if cname == "none" && addr == "pid" {
+						// every frame length around the flusher's buffer size (4096), each on an idle link
+						for n := 3990; n <= 4100; n++ {
+							ops = append(ops, &c12op{kind: "send", addr: addr, payload: mkPayload(n, byte(2*n))})
+						}
+					}
 					// one operation per set-up phase so that frames never overlap: this scenario
 					// enumerates inputs, the concurrent ones below enumerate schedules
 					for _, op := range ops {
@@ -249,6 +255,37 @@ func init() {
 			return r
 		}})
 	}
+
+	// ---- one message on an idle connection and nothing after it: it arrives (no later traffic pushes it out) ----
+	harn.Register(harn.Scenario{Property: "C12", Name: "single-message-idle-link", Run: func(ctx *harn.Ctx) *harn.Result {
+		r := harn.NewResult("enum")
+		sizes := []int{0, 1, 100, 1000}
+		for n := 3990; n <= 4100; n++ { // frame lengths around the flusher's buffer size
+			sizes = append(sizes, n)
+		}
+		sizes = append(sizes, 8100, 8192, 8200, 20000, 70000)
+		for _, n := range sizes {
+			n := n
+			fails, out := vsched.RunOnce(30, netBody(netOpts{}, func(nw *NetWorld) {
+				c := newC12(nw, gen.ProcessOptions{})
+				c.sender("S", gen.ProcessOptions{})
+				nw.connect()
+				if nw.ex.Failed() {
+					return
+				}
+				op := &c12op{kind: "send", addr: "pid", payload: mkPayload(n, byte(2*n))}
+				nw.ex.Thread("GO", func() { nw.a.n.Send(nw.a.pids["S"], []*c12op{op}) })
+				nw.Check = func() { c.check(map[string][]*c12op{"S": {op}}) }
+			}))
+			r.Executions++
+			r.Outcomes[out]++
+			for _, f := range fails {
+				r.Fail(f.Kind, "payload of %d bytes, alone on an idle link: %s", n, f.Detail)
+			}
+		}
+		r.States, r.Transitions, r.Distinct = r.Executions, r.Executions, r.Executions
+		return r
+	}})
 
 	// ---- the receiver's max message size: beyond the limit the send fails and nothing arrives ------
 	harn.Register(harn.Scenario{Property: "C12", Name: "max-message-size", Run: func(ctx *harn.Ctx) *harn.Result {
